@@ -36,6 +36,7 @@ import (
 
 	"verif/harness/internal/engine"
 	"verif/harness/internal/ev"
+	"verif/harness/internal/loglevel"
 )
 
 type okTransport struct{}
@@ -458,6 +459,9 @@ func TestFoldThroughGateway(t *testing.T) {
 	rapid.Check(t, func(t *rapid.T) {
 		c := genE2ECase().Draw(t, "case")
 		repr := func() string { b, _ := json.Marshal(c); return string(b) }
+		level := loglevel.Gen().Draw(t, "log level")
+		r.Class("log level " + level)
+		defer loglevel.Set(level)()
 		r.Case()
 		dir := filepath.Join(e2eRoot, "flows")
 		old, _ := filepath.Glob(filepath.Join(dir, "*.yaml"))
